@@ -141,7 +141,10 @@ class Index:
             npath = path + [sn] if sn else path
             if k in ("CXXRecordDecl", "ClassTemplateSpecializationDecl") and n.get("completeDefinition"):
                 q = "::".join(npath)
-                self.records[q] = n
+                # the filtered dump may print a record more than once (abbreviated copies): keep the fullest one
+                prev = self.records.get(q)
+                if prev is None or len(n.get("inner", [])) + len(n.get("bases", [])) >= len(prev.get("inner", [])) + len(prev.get("bases", [])):
+                    self.records[q] = n
                 self.qual[nid] = q
             elif k in ("CXXRecordDecl", "ClassTemplateSpecializationDecl"):
                 self.qual.setdefault(nid, "::".join(npath))
